@@ -10,9 +10,9 @@ verus! {
 
 /// stand-ins: never inspected by the verified text
 pub enum GitAiError { Generic(String) }
-pub struct RewriteLogEvent { pub _opaque: () }
-pub struct InitialAttributions { pub _opaque: () }
-pub struct ErrStandIn { pub _opaque: () }
+#[verifier::external_body] pub struct RewriteLogEvent { _o: () }
+#[verifier::external_body] pub struct InitialAttributions { _o: () }
+#[verifier::external_body] pub struct ErrStandIn { _o: () }
 
 // ---------------------------------------------------------------- (1) the rewrite log
 pub open spec fn strs(v: Seq<&str>) -> Seq<Seq<u8>> { Seq::new(v.len(), |i: int| v[i].spec_bytes()) }
@@ -89,7 +89,7 @@ pub fn deserialize_events_from_jsonl(jsonl: &str) -> (r_: Result<Vec<RewriteLogE
 
 // ---------------------------------------------------------------- (2) INITIAL
 /// stand-in for PersistedWorkingLog (only `initial_file` is touched, through the stubs below)
-pub struct PersistedWorkingLog { pub _opaque: () }
+#[verifier::external_body] pub struct PersistedWorkingLog { _o: () }
 pub uninterp spec fn fs_exists(w: PersistedWorkingLog) -> bool;
 pub uninterp spec fn fs_read(w: PersistedWorkingLog) -> Option<Seq<u8>>;     // None: the read failed
 pub uninterp spec fn init_ok(b: Seq<u8>) -> bool;                            // serde accepts the text
@@ -146,8 +146,8 @@ impl PersistedWorkingLog {
 
 // ---------------------------------------------------------------- (3) the checkpoint journal
 /// stand-ins
-pub struct Checkpoint { pub _opaque: () }
-pub struct JPath { pub _opaque: () }
+#[verifier::external_body] pub struct Checkpoint { _o: () }
+#[verifier::external_body] pub struct JPath { _o: () }
 #[verifier::external_body]
 #[verifier::reject_recursive_types(K)]
 #[verifier::reject_recursive_types(V)]
